@@ -139,8 +139,13 @@ CHECKS = {
             "Kernel-checked theorems: C03_frame (every slice assignment of the writer lies inside [off, off+size): the buffer keeps its "
             "length and every byte outside the extent is unchanged, whatever it held), C03_size_static / C03_size_word_* (the size an "
             "object reports is the extent the writer stays inside), C03_static_struct_parts / C03_dynamic_struct_parts / "
-            "C03_array_items_dynamic (parts inside the parent, siblings pairwise disjoint).",
-            "Partial: extents newly allocated for reference targets come from the traced allocate() calls (tie + oracle).",
+            "C03_array_items_dynamic (parts inside the parent, siblings pairwise disjoint). Objects holding references (reference-graph "
+            "proof model, component rg): C03_ref_ops_frame (for every operation - construct, bind to existing / to a value (new node) / "
+            "to null, write through the handle or through a reference, copy, update, allocation, growth - at most the node operated on "
+            "changes among the previously live regions; every other live region keeps every byte, across growth too) and "
+            "C03_ref_ops_disjoint (what is newly created is disjoint from everything live and inside the storage).",
+            "Partial: for references held in dynamic structs and arrays the extents newly allocated for reference targets come from "
+            "the traced allocate() calls (tie + oracle).",
             "7/C03"),
     "C05": (LAY + "oracle: a decoder written in Python only from Architecture.md/types.rst run on the real bytes",
             "Kernel-checked theorems: C05_decode (decoding the bytes by the documented rules - size word, header words, offset slots, "
